@@ -77,7 +77,7 @@ def run(ctx):
         inputs.append(("%s:%s" % ("mutant:" + m["class"] if m else "valid", tag), p, m))
     # every single-token mutant (deleted, doubled, swapped, undeclared name, misplaced keyword, literal for name) of the
     # richest schemas of the family (spec/TokMut.tla)
-    for tag, p, expect, m, c in fc.token_inputs(ctx, fc.gen(ctx, with_mutants=False)[0], wd, 2 if ctx.quick else 8):
+    for tag, p, expect, m, c in fc.token_inputs(ctx, fc.gen(ctx, with_mutants=False)[0], wd, 2 if ctx.quick else 8, 1 if ctx.quick else 4):
         inputs.append(("token:%s:%s" % (m["class"], tag), p, m))
     # byte-level truncations and mutations of one valid schema
     base = express.render(cases[0]["schema"]).encode()
